@@ -99,6 +99,7 @@ func (s *Solver) start() error {
 		return err
 	}
 	s.cmd, s.in, s.out, s.dead = cmd, in, bufio.NewReaderSize(out, 1<<20), false
+	s.nq = 0
 	return nil
 }
 
@@ -124,10 +125,15 @@ func (s *Solver) Check(query string, timeoutMs int, getVals []string) (Verdict, 
 	s.nq++
 	marker := fmt.Sprintf("<<END-%d>>", s.nq)
 	var sb strings.Builder
-	sb.WriteString("(reset)\n")
-	if s.kind.Name == "z3" || s.kind.Name == "z3-new" {
-		fmt.Fprintf(&sb, "(set-option :timeout %d)\n", timeoutMs)
+	isZ3 := s.kind.Name == "z3" || s.kind.Name == "z3-new"
+	if isZ3 {
+		// push/pop scopes declarations too and is ~10x cheaper than (reset)
+		if s.nq > 1 {
+			sb.WriteString("(pop 1)\n")
+		}
+		fmt.Fprintf(&sb, "(set-option :timeout %d)\n(push 1)\n", timeoutMs)
 	} else {
+		sb.WriteString("(reset)\n")
 		fmt.Fprintf(&sb, "(set-option :tlimit-per %d)\n(set-logic ALL)\n", timeoutMs)
 	}
 	sb.WriteString(query)
